@@ -463,6 +463,9 @@ func runC04(c *Ctx) {
 	ruleDotTable(c)
 	ruleDrains(c)
 	ruleDrainFailureCloses(c)
+	// the reply to the command after a chunk depends on that command only: octets of a binary chunk
+	// (limit lifted) must leave no count behind that refuses the next command line
+	ruleLimiterBypass(c)
 
 	// ---------- R-reply-count ----------
 	R.Rule("R-reply-count", "E2 path counting with callee summaries", "exactly one final reply on every entry-to-exit path of the dispatcher and of each command handler (intermediate 354/334 excluded; I/O-failure paths exempt)", 9)
